@@ -295,6 +295,24 @@ func (k *checker) explainUncommitted(o *txObs) {
 			return
 		}
 	}
+	// attribution pass (c): the rows of one state of the window under the catalog of a state
+	// OLDER than the window (older than every commit acknowledged before BEGIN): the engine's
+	// cached catalog outlived a DDL commit
+	if lo > k.base {
+		for id := lo; id <= hi; id++ {
+			for cat := k.base; cat < lo; cat++ {
+				db := m.NewDB()
+				for n, rt := range k.states[id].Tables {
+					ct := k.states[cat].Tables[n]
+					db.Tables[n] = &m.Table{Schema: rt.Schema, Rows: rt.Rows, MaxPK: rt.MaxPK, Checks: ct.Checks, Extra: ct.Extra, Idx: ct.Idx}
+				}
+				if explain(o, db, quirks{}, nil).ok {
+					k.viol("sqltx/catalog-older-than-acknowledged-ddl-commit", what+fmt.Sprintf("; the rows of state %d under the catalog of state %d (before the window) do: the transaction worked on a catalog that predates a DDL commit serialized before a commit acknowledged before its BEGIN", id, cat), o)
+					return
+				}
+			}
+		}
+	}
 	sig := "sqltx/unexplained-read"
 	if best.aspect == "affected-rows" {
 		sig = "sqltx/uncommitted/affected-rows"
@@ -547,6 +565,19 @@ func checkCase(c *fw.Ctx, d *db, tag string, nsess int, base uint64, init *m.DB,
 		c.Eval(1)
 		if got := classify(err); got != want {
 			k.viol("sqltx/final-constraint", fmt.Sprintf("after all sessions finished %q gave %q (%v); the committed transactions imply %q (constraints in force: %v)", probe.SQL(ct.Schema), got, err, want, ct.Checks), nil)
+		}
+	}
+	// a column exists exactly when a COMMITTED transaction added it
+	if ct := final.Tables["c"]; ct != nil {
+		for i := 0; i < 3; i++ {
+			probe := &m.Stmt{Kind: m.Count, Table: "c", Where: m.Pred{{Col: fmt.Sprintf("x%d", i), Op: "isnull"}}}
+			want := m.Begin(final, false).Exec(probe).Err
+			var err error
+			d.op(func(ctx context.Context) { _, err = d.query(ctx, nil, probe) })
+			c.Eval(1)
+			if got := classify(err); got != want {
+				k.viol("sqltx/final-catalog", fmt.Sprintf("after all sessions finished %q gave %q (%v); the committed transactions imply %q (added columns: %v)", probe.SQL(ct.Schema), got, err, want, ct.Extra), nil)
+			}
 		}
 	}
 	for _, o := range obs {
